@@ -26,6 +26,59 @@ const T_NSEC: u16 = 47;
 const T_DNSKEY: u16 = 48;
 const T_NSEC3PARAM: u16 = 51;
 
+/// The whole-zone entry points reach the same generators by another route: `sign_zone` in place
+/// and `sign_zone` into a separate collection (no keys: denial records only) must add exactly the
+/// denial records that direct generation yields.
+fn routes_agree(c: &mut Ctx, fam: &str, idx: u64, z: &ZoneC, denial: domain::dnssec::sign::denial::config::DenialConfig<Bytes, DefaultSorter>, direct: &BTreeSet<(Vec<u8>, u16, Vec<u8>)>, what: &str) {
+    use domain::crypto::sign::KeyPair;
+    use domain::dnssec::sign::config::SigningConfig;
+    use domain::dnssec::sign::keys::SigningKey;
+    use domain::dnssec::sign::traits::{SignableZone, SignableZoneInPlace};
+    use domain::rdata::dnssec::Timestamp;
+    let apex = sname(&z.apex);
+    let cfg = SigningConfig::new(denial, Timestamp::from(0), Timestamp::from(1));
+    let no_keys: &[&SigningKey<Bytes, KeyPair>] = &[];
+    let denial_types = |t: u16| matches!(t, 47 | 50 | 51);
+    let collect = |recs: &[domain::base::Record<StoredName, StoredRecordData>]| -> BTreeSet<(Vec<u8>, u16, Vec<u8>)> {
+        recs.iter()
+            .filter(|r| denial_types(r.rtype().to_int()))
+            .map(|r| {
+                let mut rd = Vec::new();
+                r.data().compose_rdata(&mut rd).unwrap();
+                (w::lower(r.owner().as_slice()), r.rtype().to_int(), rd)
+            })
+            .collect()
+    };
+    let r = ctx::catch(|| {
+        let mut in_place = sorted_records(z);
+        let a = SignableZoneInPlace::sign_zone(&mut in_place, &apex, &cfg, no_keys).map(|_| collect(&in_place)).map_err(|e| format!("{:?}", e));
+        let src = sorted_records(z);
+        let mut out = SortedRecords::<StoredName, StoredRecordData, DefaultSorter>::default();
+        let b = SignableZone::sign_zone(&src, &apex, &cfg, no_keys, &mut out).map(|_| collect(&out)).map_err(|e| format!("{:?}", e));
+        (a, b)
+    });
+    let ex = || json!({"zone": z.records().iter().map(|(o, t, _, _)| format!("{} TYPE{}", w::name_text(o), t)).collect::<Vec<_>>(), "denial": what});
+    match r {
+        Err(pi) => c.violation(&format!("panic:{}", pi.site()), &format!("panic in sign_zone ({}): {} at {}:{}", what, pi.msg, pi.file, pi.line), c.replay_of(fam, idx, ex())),
+        Ok((a, b)) => {
+            for (route, got) in [("in-place", a), ("into-a-separate-collection", b)] {
+                match got {
+                    Err(e) => {
+                        c.violation(&format!("route:{}:{}:error", what, route), &format!("sign_zone ({}, {}) fails on a zone for which direct generation succeeds: {}", what, route, e), c.replay_of(fam, idx, ex()));
+                        return;
+                    }
+                    Ok(set) if &set != direct => {
+                        c.violation(&format!("route:{}:{}:differs", what, route), &format!("sign_zone ({}, {}) adds {} denial records, direct generation yields {} (or other ones)", what, route, set.len(), direct.len()), c.replay_of(fam, idx, ex()));
+                        return;
+                    }
+                    Ok(_) => {}
+                }
+            }
+            c.count("sign_zone_routes_agree", 1);
+        }
+    }
+}
+
 // ------------------------------------------------------------- SHA-1 ----
 
 pub fn sha1(data: &[u8]) -> [u8; 20] {
@@ -164,6 +217,17 @@ fn nsec_case(c: &mut Ctx, fam: &str, idx: u64, z: &ZoneC, assume_dnskey: bool) {
             return;
         }
     };
+    if idx % 3 == 0 {
+        let direct: BTreeSet<(Vec<u8>, u16, Vec<u8>)> = nsecs
+            .iter()
+            .map(|r| {
+                let mut rd = Vec::new();
+                r.data().compose_rdata(&mut rd).unwrap();
+                (w::lower(r.owner().as_slice()), T_NSEC, rd)
+            })
+            .collect();
+        routes_agree(c, fam, idx, z, domain::dnssec::sign::denial::config::DenialConfig::Nsec(cfg.clone()), &direct, "nsec");
+    }
     // observed: (owner lower, next lower, bitmap octets, ttl)
     let obs: Vec<(Vec<u8>, Vec<u8>, Vec<u8>, u32)> = nsecs
         .iter()
@@ -247,16 +311,20 @@ fn nsec3_case(c: &mut Ctx, fam: &str, idx: u64, rng: &mut Rng, z: &ZoneC, log: &
     let auth = authoritative(z);
     let recs = sorted_records(z);
     let params = Nsec3param::<Bytes>::new(Nsec3HashAlgorithm::SHA1, 0, iterations, Nsec3Salt::from_octets(Bytes::from(salt.clone())).unwrap());
-    let mut cfg = GenerateNsec3Config::<Bytes, DefaultSorter>::new(params);
-    if opt_out {
-        cfg = cfg.with_opt_out();
-    }
-    if !exclude {
-        cfg = cfg.without_opt_out_excluding_owner_names_of_unsigned_delegations();
-    }
-    if !assume_dnskey {
-        cfg = cfg.without_assuming_dnskeys_will_be_added();
-    }
+    let mk_cfg = || {
+        let mut cfg = GenerateNsec3Config::<Bytes, DefaultSorter>::new(params.clone());
+        if opt_out {
+            cfg = cfg.with_opt_out();
+        }
+        if !exclude {
+            cfg = cfg.without_opt_out_excluding_owner_names_of_unsigned_delegations();
+        }
+        if !assume_dnskey {
+            cfg = cfg.without_assuming_dnskeys_will_be_added();
+        }
+        cfg
+    };
+    let cfg = mk_cfg();
     let apex = sname(&z.apex);
     let res = ctx::catch(|| generate_nsec3s(&apex, recs.owner_rrs(), &cfg));
     let out = match res {
@@ -270,6 +338,21 @@ fn nsec3_case(c: &mut Ctx, fam: &str, idx: u64, rng: &mut Rng, z: &ZoneC, log: &
             return;
         }
     };
+    if idx % 3 == 1 {
+        let mut direct: BTreeSet<(Vec<u8>, u16, Vec<u8>)> = out
+            .nsec3s
+            .iter()
+            .map(|r| {
+                let mut rd = Vec::new();
+                r.data().compose_rdata(&mut rd).unwrap();
+                (w::lower(r.owner().as_slice()), 50u16, rd)
+            })
+            .collect();
+        let mut rd = Vec::new();
+        out.nsec3param.data().compose_rdata(&mut rd).unwrap();
+        direct.insert((w::lower(out.nsec3param.owner().as_slice()), T_NSEC3PARAM, rd));
+        routes_agree(c, fam, idx, z, domain::dnssec::sign::denial::config::DenialConfig::Nsec3(mk_cfg()), &direct, "nsec3");
+    }
     // expected names
     let skip_unsigned = opt_out && exclude;
     let mut included: BTreeMap<Vec<u8>, Vec<u16>> = BTreeMap::new();
@@ -412,7 +495,7 @@ pub fn run(c: &mut Ctx) {
         }
     }
     if !c.replaying() {
-        for k in ["nsec_chains_checked", "nsec3_chains_checked", "zones_with_cuts", "zones_with_glue_or_occluded", "zones_with_wildcards", "nsec3_ents", "nsec3_opt_out_exclusions", "nsec_denial_probes"] {
+        for k in ["sign_zone_routes_agree", "nsec_chains_checked", "nsec3_chains_checked", "zones_with_cuts", "zones_with_glue_or_occluded", "zones_with_wildcards", "nsec3_ents", "nsec3_opt_out_exclusions", "nsec_denial_probes"] {
             c.floor(k, 10);
         }
     }
